@@ -203,7 +203,7 @@ def random_history(rng, profile):
             ops.append({"op": "add", "id": nid, "t": "c", "k": 2 * b, "k2": 2 * b + 1, "j": 0})
             nid += 1
         if profile == "kf_multinull":
-            # ... and one document WITHOUT a value in that multi-valued segment (recorded finding F48)
+            # ... and one document WITHOUT a value in that multi-valued segment (recorded finding F49)
             ops.append({"op": "add", "id": nid, "t": "c", "k": -1, "j": 0})
             nid += 1
         if profile == "nullstack":
@@ -266,13 +266,13 @@ def tally(ctx, runs):
                 t["segments_with_reordered_documents"] += 1 if any(a > b for a, b in zip(ids, ids[1:])) else 0
 
 
-KF_F48 = ("merge of a sorted index stacks the segments although a MULTI-VALUED sort column holds documents without a value "
+KF_F49 = ("merge of a sorted index stacks the segments although a MULTI-VALUED sort column holds documents without a value "
           "(IndexMerger::segment_has_live_nulls only looks at Optional columns): in the merged segment the documents without a value "
           "are not first (ascending) / last (descending)")
 
 
-def known_finding_f48(ctx):
-    """dedicated reproduction of the recorded finding F48 (the default profiles steer around it: multi-valued sort columns
+def known_finding_f49(ctx):
+    """dedicated reproduction of the recorded finding F49 (the default profiles steer around it: multi-valued sort columns
     either have overlapping ranges or no document without a value)"""
     rng = random.Random(ctx.seed + 48)
     hs = []
@@ -281,12 +281,12 @@ def known_finding_f48(ctx):
         for ty in ("u64", "i64", "f64", "date"):
             for order in ("asc", "desc"):
                 hs.append(concretise(ops, ty, order, POOL12, 1, 0, f"kf_multinull{j}"))
-    runs = execute(ctx, hs, "kf_f48", timeout=600)
+    runs = execute(ctx, hs, "kf_f49", timeout=600)
     seen = False
     for i, run in enumerate(runs):
-        p = ctx.path(f"kf_f48.{i}.ndjson")
+        p = ctx.path(f"kf_f49.{i}.ndjson")
         vlib.write_ndjson(p, run)
-        ok, r = vlib.validate_trace(ctx, "SortedIndexTrace", "SortedIndexTrace.cfg", p, name=f"kf_f48.{i}", timeout=300)
+        ok, r = vlib.validate_trace(ctx, "SortedIndexTrace", "SortedIndexTrace.cfg", p, name=f"kf_f49.{i}", timeout=300)
         if ok:
             continue
         line, why = tracecheck.violated_line(r)
@@ -294,13 +294,13 @@ def known_finding_f48(ctx):
         if evt.get("ev") == "merge":
             keys = [[row[5][0] if row[5] else -1 for row in sg["docs"]] for sg in (evt.get("obs") or {}).get("segs", [])]
             if not seen:
-                ctx.violation(KF_F48, [p], json.dumps({"cfg": run[0]["cfg"], "first_sort_value_per_document_of_the_merged_segment (-1 = none)": keys})[:3000])
+                ctx.violation(KF_F49, [p], json.dumps({"cfg": run[0]["cfg"], "first_sort_value_per_document_of_the_merged_segment (-1 = none)": keys})[:3000])
             seen = True
         else:
             ctx.violation(f"SortedIndexTrace: {why}", [p], json.dumps(evt)[:3000])
-    ctx.cov["kf_f48_reproduced"] = seen
+    ctx.cov["kf_f49_reproduced"] = seen
     if not seen:
-        log("[C17] note: the recorded finding F48 (stacking with nulls in a multi-valued sort column) did not reproduce")
+        log("[C17] note: the recorded finding F49 (stacking with nulls in a multi-valued sort column) did not reproduce")
 
 
 def sorted_driver_runs(ctx):
@@ -485,7 +485,7 @@ def run(ctx):
                         "single-valued sort fields only (the documented requirement)"]
     model_checking(ctx)
     runs = sorted_driver_runs(ctx)
-    known_finding_f48(ctx)
+    known_finding_f49(ctx)
     ev = world_runs(ctx)
     binding_selftest(ctx, runs, ev)
     r = next((r for r in runs if nontrivial(r) and r[0]["cfg"]["type"] == "str"), runs[0])
